@@ -125,7 +125,7 @@ func cmdVerify(args []string) {
 				exp = "sat"
 			}
 			if *verbose || (ob.Result != exp && !(ob.Cover && ob.Result == "inconclusive")) {
-				fmt.Printf("    %-7s %-50s [%s] %s:%d  %s\n", ob.Result, strings.TrimPrefix(ob.Name, s.Func+"/"), strings.Join(ob.Tags, ","), shortFile(ob.Pos.Filename), ob.Pos.Line, ob.Detail)
+				fmt.Printf("    %-7s %-50s [%s] %s:%d  %s {%s %dms}\n", ob.Result, strings.TrimPrefix(ob.Name, s.Func+"/"), strings.Join(ob.Tags, ","), shortFile(ob.Pos.Filename), ob.Pos.Line, ob.Detail, ob.Solver, ob.Ms)
 				if ob.Result == "error" {
 					fmt.Printf("        %s\n", ob.Model)
 				}
